@@ -6,7 +6,9 @@ import (
 	"fmt"
 	"math/rand"
 	"os"
+	"os/exec"
 	"path/filepath"
+	"strings"
 	"sync/atomic"
 	"time"
 
@@ -41,6 +43,19 @@ type c10Params struct {
 	K2    int    `json:"k2,omitempty"`
 	Site2 string `json:"site2,omitempty"`
 	Stmt2 string `json:"stmt2,omitempty"`
+	// operating-system fault: the child runs under strace, which fails the N-th call (per thread) of one
+	// system call on the database or its journal with an errno ("pwrite64:ENOSPC:3")
+	OS string `json:"os,omitempty"`
+}
+
+// straceWrap builds the command prefix for an operating-system fault.
+func (p *c10Params) straceWrap() []string {
+	f := strings.Split(p.OS, ":")
+	if len(f) != 3 {
+		return nil
+	}
+	return []string{"strace", "-f", "--seccomp-bpf", "-o", "{dir}/strace.log", "-P", p.DBPath + ".v4", "-P", p.DBPath + ".v4-journal",
+		"-e", "trace=pwrite64,fsync,fdatasync,ftruncate,unlink", "-e", fmt.Sprintf("inject=%s:error=%s:when=%s", f[0], f[1], f[2])}
 }
 
 func init() {
@@ -49,6 +64,10 @@ func init() {
 }
 
 func (p *c10Params) describe() string {
+	if p.OS != "" {
+		f := strings.Split(p.OS, ":")
+		return fmt.Sprintf("operating system: %s on the database or journal file fails with %s (call #%s of each thread)", f[0], f[1], f[2])
+	}
 	if p.Req != nil {
 		return fmt.Sprintf("upstream %s on %s(%s) #%d", p.Fault, p.Req.Method, p.Req.What, p.Req.Nth)
 	}
@@ -59,6 +78,10 @@ func (p *c10Params) describe() string {
 }
 
 func (p *c10Params) signature(what string) string {
+	if p.OS != "" {
+		f := strings.Split(p.OS, ":")
+		return fmt.Sprintf("%s label=%s os=%s/%s", what, p.Label, f[0], f[1])
+	}
 	if p.Req != nil {
 		return fmt.Sprintf("%s label=%s upstream=%s/%s", what, p.Label, p.Req.What, p.Fault)
 	}
@@ -144,7 +167,7 @@ func c10Fault(j *orch.Job, r *orch.Result) error {
 				return nil // the parent resumes with a fresh process
 			}
 			if errors.Is(err, harness.ErrWedged) {
-				r.Violate("C10", p.signature("no-recovery"), fmt.Sprintf("after one transient fault (%s) block %d was never applied (requested repeatedly without progress)", p.describe(), h), cd)
+				r.Violate("C10", p.signature("no-recovery"), fmt.Sprintf("after one transient fault (%s) block %d was never applied (requested repeatedly without progress); last daemon error: %s", p.describe(), h, harness.LastDaemonError()), cd)
 				n.Stop()
 				return nil
 			}
@@ -203,6 +226,7 @@ func checkC10(c *Ctx) *orch.Outcome {
 		"Distinct non-trivial = distinct (block label, statement call-site stratum | upstream object kind × failure mode) where the fault was really injected."
 	o.Assumptions = []string{
 		"faults are injected at statement / request boundaries only (where the real system can fail) and are transient by construction",
+		"operating-system faults: strace fails the N-th pwrite64 (ENOSPC / EIO) or unlink (EIO) of each thread on the database or its journal; the count is per thread, so one case may inject a short burst of failures instead of one",
 		"a daemon that stops after a fault (log.Fatal, panic) is crash-stop: counted, resumed by a fresh process, same ledger demanded",
 		"compressed eras; averaging window 12",
 	}
@@ -275,6 +299,29 @@ func checkC10(c *Ctx) *orch.Outcome {
 		rng.Shuffle(len(cases), func(i, j int) { cases[i], cases[j] = cases[j], cases[i] })
 		cases = cases[:700]
 	}
+	// operating-system faults (strace fault injection on the database and journal files): disk full and I/O
+	// errors on writes, failing journal deletion
+	nDB := len(cases)
+	if _, err := exec.LookPath("strace"); err == nil {
+		whens := []int{1, 2, 4}
+		if c.Thorough() {
+			whens = []int{1, 2, 3, 4, 5, 6, 8, 11, 15}
+		}
+		for bi, b := range rm.Special {
+			prof := rm.Profiles[b]
+			for wi, w := range whens {
+				errno := []string{"ENOSPC", "EIO"}[(bi+wi)%2]
+				if c.Thorough() {
+					cases = append(cases, c10Params{Dir: dir, Block: b, Label: prof.Label, OS: fmt.Sprintf("pwrite64:%s:%d", []string{"EIO", "ENOSPC"}[(bi+wi)%2], w)})
+				}
+				cases = append(cases, c10Params{Dir: dir, Block: b, Label: prof.Label, OS: fmt.Sprintf("pwrite64:%s:%d", errno, w)})
+			}
+			cases = append(cases, c10Params{Dir: dir, Block: b, Label: prof.Label, OS: "unlink:EIO:1"})
+		}
+	} else {
+		o.Extra["os_faults"] = "strace not available: operating-system faults not run"
+	}
+	_ = nDB
 	type outcome struct {
 		first, resume *orch.Result
 	}
@@ -289,7 +336,17 @@ func checkC10(c *Ctx) *orch.Outcome {
 			p.DBPath = filepath.Join(c.R.Scratch, fmt.Sprintf("c10-db-%d", i))
 			pj, _ := json.Marshal(p)
 			job := orch.Job{Kind: "c10.fault", Name: fmt.Sprintf("c10-fault-%d", i), Params: pj, Timeout: 300, Race: c.Thorough() && i%16 == 0}
+			if p.OS != "" {
+				job.Race = false
+				job.Dir = c.R.JobDir(job.Name)
+				job.Wrap = p.straceWrap()
+			}
 			res := c.R.RunOne(&job)
+			if p.OS != "" {
+				if lg, err := os.ReadFile(filepath.Join(job.Dir, "strace.log")); err == nil {
+					res.Info["injected"] = float64(strings.Count(string(lg), "(INJECTED)"))
+				}
+			}
 			outs[i].first = res
 			stopped := res.Crashed || res.Info["crash_stop"] != nil
 			if stopped {
@@ -317,6 +374,7 @@ func checkC10(c *Ctx) *orch.Outcome {
 	crashStops := map[string]int{}
 	var all []*orch.Result
 	injected := 0
+	osInjected := 0
 	races := 0
 	for i, oc := range outs {
 		p := cases[i]
@@ -340,7 +398,11 @@ func checkC10(c *Ctx) *orch.Outcome {
 		}
 		if inj {
 			injected++
-			if p.Req != nil {
+			if p.OS != "" {
+				osInjected++
+				f := strings.Split(p.OS, ":")
+				strata[fmt.Sprintf("%s|os|%s|%s", p.Label, f[0], f[1])] = true
+			} else if p.Req != nil {
 				strata[fmt.Sprintf("%s|up|%s|%s", p.Label, p.Req.What, p.Fault)] = true
 			} else {
 				strata[fmt.Sprintf("%s|db|%s|%s", p.Label, p.Site, clipS(p.Stmt, 30))] = true
@@ -360,6 +422,7 @@ func checkC10(c *Ctx) *orch.Outcome {
 	o.Evaluations = int64(len(cases))
 	o.Nontrivial = int64(len(strata))
 	o.Extra["faults_injected"] = injected
+	o.Extra["os_level_cases_with_injected_faults"] = osInjected
 	o.Extra["statements_in_special_blocks"] = totalStmts
 	o.Extra["requests_in_special_blocks"] = totalReqs
 	o.Extra["states_compared"] = orch.SumCounter(all, "states_compared")
